@@ -477,7 +477,9 @@ static void *res_main(struct thr *t)
 			vp_rcu_offline();
 		__atomic_fetch_add(&g_explicit_active, 1, __ATOMIC_RELAXED);
 		VP_STORE(t->in_call, CALL_RESIZE);
+		vp_create_fail_armed = 1;	/* --f-create-eagain: partition helper threads may fail to start */
 		cds_lfht_resize(g_ht, req);
+		vp_create_fail_armed = 0;
 		VP_STORE(t->in_call, CALL_NONE);
 		__atomic_fetch_sub(&g_explicit_active, 1, __ATOMIC_RELAXED);
 		if (off)
